@@ -419,9 +419,57 @@ fn h_hdr_sor_dyn(s: &mut RSrc) {
     s.reach();
 }
 
+include!("/verif/hooks/h263/parser/picture_assembly.rs");
+
 #[cfg(kani)]
 mod proofs {
     use super::*;
+    #[kani::proof]
+    #[kani::unwind(34)]
+    #[kani::stub(H263Reader::recognize_start_code, H263Reader::verif_s_recognize)]
+    #[kani::stub(H263Reader::skip_bits, H263Reader::verif_s_skip)]
+    #[kani::stub(H263Reader::read_bits, H263Reader::verif_s_read_bits)]
+    #[kani::stub(decode_ptype, asm::s_ptype)]
+    #[kani::stub(decode_plusptype, asm::s_plusptype)]
+    #[kani::stub(decode_cpm_and_psbi, asm::s_cpm)]
+    #[kani::stub(decode_cpfmt, asm::s_cpfmt)]
+    #[kani::stub(decode_cpcfc, asm::s_cpcfc)]
+    #[kani::stub(decode_uui, asm::s_uui)]
+    #[kani::stub(decode_sss, asm::s_sss)]
+    #[kani::stub(decode_elnum_rlnum, asm::s_elnum)]
+    #[kani::stub(decode_rpsmf, asm::s_rpsmf)]
+    #[kani::stub(decode_trpi, asm::s_trpi)]
+    #[kani::stub(decode_bcm, asm::s_bcm)]
+    #[kani::stub(decode_rprp, asm::s_rprp)]
+    #[kani::stub(decode_trb, asm::s_trb)]
+    #[kani::stub(decode_dbquant, asm::s_dbquant)]
+    #[kani::stub(decode_pei, asm::s_pei)]
+    fn std_assembly() {
+        asm::std_assembly::<false, 2>()
+    }
+    #[kani::proof]
+    #[kani::unwind(34)]
+    #[kani::stub(H263Reader::recognize_start_code, H263Reader::verif_s_recognize)]
+    #[kani::stub(H263Reader::skip_bits, H263Reader::verif_s_skip)]
+    #[kani::stub(H263Reader::read_bits, H263Reader::verif_s_read_bits)]
+    #[kani::stub(decode_ptype, asm::s_ptype)]
+    #[kani::stub(decode_plusptype, asm::s_plusptype)]
+    #[kani::stub(decode_cpm_and_psbi, asm::s_cpm)]
+    #[kani::stub(decode_cpfmt, asm::s_cpfmt)]
+    #[kani::stub(decode_cpcfc, asm::s_cpcfc)]
+    #[kani::stub(decode_uui, asm::s_uui)]
+    #[kani::stub(decode_sss, asm::s_sss)]
+    #[kani::stub(decode_elnum_rlnum, asm::s_elnum)]
+    #[kani::stub(decode_rpsmf, asm::s_rpsmf)]
+    #[kani::stub(decode_trpi, asm::s_trpi)]
+    #[kani::stub(decode_bcm, asm::s_bcm)]
+    #[kani::stub(decode_rprp, asm::s_rprp)]
+    #[kani::stub(decode_trb, asm::s_trb)]
+    #[kani::stub(decode_dbquant, asm::s_dbquant)]
+    #[kani::stub(decode_pei, asm::s_pei)]
+    fn std_assembly_err() {
+        asm::std_assembly::<true, 2>()
+    }
     #[kani::proof]
     #[kani::unwind(8)]
     fn option_mask() {
